@@ -671,6 +671,8 @@ pub struct C18 {
     tl: Vec<Vec<(u64, u64, u128)>>,
     change_blocks: Vec<u64>,
     overwrite_seen: bool,
+    /// per vamm: final reserves of every block in which the vAMM executed a swap (and of the deployment block)
+    fin: Vec<BTreeMap<u64, (u128, u128)>>,
 }
 
 #[derive(serde::Deserialize)]
@@ -689,12 +691,18 @@ impl Monitor for C18 {
         self.tl = s0.vamms.iter().map(|v| vec![(w.deploy_height, w.deploy_time, v.spot)]).collect();
         self.change_blocks = vec![0; s0.vamms.len()];
         self.overwrite_seen = false;
+        self.fin = s0.vamms.iter().map(|v| BTreeMap::from([(w.deploy_height, (v.q, v.b))])).collect();
     }
     fn post(&mut self, w: &World, st: &Step, r: &mut Report) {
         let now = st.post.time;
         let swapped: BTreeSet<usize> = swap_events(w, &st.out).iter().map(|s| s.vamm).collect();
         for (i, (a, b)) in st.pre.vamms.iter().zip(st.post.vamms.iter()).enumerate() {
             if a.q != b.q || a.b != b.b || swapped.contains(&i) {
+                if st.post.height == self.tl[i][0].0 {
+                    // (a trade in the deployment block overwrites the initial snapshot)
+                    self.fin[i].clear();
+                }
+                self.fin[i].insert(st.post.height, (b.q, b.b));
                 let last = *self.tl[i].last().unwrap();
                 if last.0 == st.post.height && self.tl[i].len() > 1 {
                     // same block: the block's final reserves replace the earlier ones
@@ -762,12 +770,14 @@ impl Monitor for C18 {
             // raw snapshot discipline
             let dump = w.raw_dump(&w.vamms[i]);
             let mut heights = vec![];
+            let mut stored: Vec<(u64, u128, u128)> = vec![];
             let mut latest: Option<RawSnap> = None;
             // snapshot records are recognised by shape (any key), the latest one is the last in key order among
             // those of the highest block
             for (_k, v) in dump {
                 if let Ok(s) = serde_json::from_slice::<RawSnap>(&v) {
                     heights.push(s.block_height);
+                    stored.push((s.block_height, s.quote_asset_reserve.u128(), s.base_asset_reserve.u128()));
                     if latest.as_ref().map(|l| s.block_height >= l.block_height).unwrap_or(true) {
                         latest = Some(s);
                     }
@@ -784,6 +794,18 @@ impl Monitor for C18 {
             }
             if heights.len() as u64 > self.change_blocks[i] + 1 {
                 r.violation("C18", "R2-too-many-snapshots", "R2|count".into(), format!("vamm{} has {} snapshots for {} blocks with swaps", i, heights.len(), self.change_blocks[i]), st.seq);
+            }
+            // every block in which the vAMM traded has exactly one snapshot, holding that block's final reserves
+            for (h, q, b) in &stored {
+                match self.fin[i].get(h) {
+                    Some((fq, fb)) if fq == q && fb == b => {}
+                    Some((fq, fb)) => r.violation("C18", "R2-snapshot-not-final-reserves-of-its-block", "R2|not-final".into(), format!("vamm{} snapshot of block {} holds ({}, {}) but the block ended with ({}, {})", i, h, q, b, fq, fb), st.seq),
+                    None => r.violation("C18", "R2-snapshot-of-a-block-without-trade", "R2|phantom".into(), format!("vamm{} has a snapshot for block {} in which it did not trade", i, h), st.seq),
+                }
+            }
+            let have: BTreeSet<u64> = stored.iter().map(|x| x.0).collect();
+            if let Some(missing) = self.fin[i].keys().find(|h| !have.contains(h)) {
+                r.violation("C18", "R2-block-without-snapshot", "R2|missing".into(), format!("vamm{} traded in block {} but has no snapshot for it ({} snapshots, {} blocks with trades)", i, missing, stored.len(), self.fin[i].len()), st.seq);
             }
             if let Some(l) = latest {
                 let _ = l.timestamp;
